@@ -88,7 +88,7 @@ def mdp_Wf : (d : Nat) → MTree r d → Prop
 theorem mdp_Wf_of_inv {T : Nat} {D : DigestFn (r + 1)} : ∀ (d : Nat) (top : Bool) (t : MTree r d),
     MTreeInv T D d top t → mdp_Wf d t
   | 0, _, _, _ => trivial
-  | d + 1, _, (m : MMetaSlab (MTree r d)), h => ⟨h.2.1, fun c hc => mdp_Wf_of_inv d false c (h.2.2.2.2.1 c hc)⟩
+  | d + 1, _, (_ : MMetaSlab (MTree r d)), h => ⟨h.2.1, fun c hc => mdp_Wf_of_inv d false c (h.2.2.2.2.1 c hc)⟩
 
 /-- the model's loop of `MapMetaDataSlab.PopIterate` on the children LAST TO FIRST (the list is already reversed) -/
 def mdp_popList (d : Nat) : List (MTree r d) → Ctx → List (MKey × Elem) × Ctx
@@ -326,5 +326,59 @@ theorem Ob_MapSlab_PopIterate_heap_res_zero (sl : MDataSlab r) (x : Option DX) (
   congr 2
   cases hg : sl.elems with
   | mk a b c d => rw [hg] at h1 h2 h3; simp only at h1 h2 h3; subst h1 h2 h3; rfl
+
+/-! ### non-vacuity: a depth-1 tree with two data slabs -/
+
+def mdp_exKA : MKey := ⟨1, 7, [5]⟩
+def mdp_exKB : MKey := ⟨1, 8, [9]⟩
+def mdp_exA : MDataSlab 0 :=
+  { hdr := ⟨⟨1, 2⟩, 36, 5⟩, next := ⟨1, 3⟩,
+    elems := { hkeys := [5], elems := [.single ⟨mdp_exKA, default, 10⟩], size := 26, level := 0 },
+    root := false, inlined := false }
+def mdp_exB : MDataSlab 0 :=
+  { hdr := ⟨⟨1, 3⟩, 36, 9⟩, next := SlabID.undef,
+    elems := { hkeys := [9], elems := [.single ⟨mdp_exKB, default, 10⟩], size := 26, level := 0 },
+    root := false, inlined := false }
+def mdp_exM : MMetaSlab (MTree 0 0) :=
+  { hdr := ⟨⟨1, 1⟩, 44, 5⟩, childHdrs := [mdp_exA.hdr, mdp_exB.hdr], children := [mdp_exA, mdp_exB], root := true }
+def mdp_exX : Option DX := some (0, 2, 0)
+def mdp_exSt : MHSt 0 := { heap := md_heapOf 1 mdp_exM mdp_exX, ctx := ⟨7, [], []⟩ }
+
+theorem mdp_ex_hyps : MHolds mdp_exSt.heap 1 mdp_exM mdp_exX ∧ (md_ids 1 mdp_exM).Nodup ∧ mdp_Wf 1 mdp_exM ∧
+    mdp_RootOk 1 mdp_exM mdp_exX ∧ mdp_LeafOk 1 mdp_exM := by
+  refine ⟨⟨rfl, ?_⟩, by decide, ⟨rfl, fun _ _ => trivial⟩, trivial, ?_⟩
+  · intro c hc
+    rcases List.mem_cons.mp hc with rfl | hc
+    · exact (rfl : md_heapOf 1 mdp_exM mdp_exX ⟨1, 2⟩ = _)
+    · rcases List.mem_cons.mp hc with rfl | hc
+      · exact (rfl : md_heapOf 1 mdp_exM mdp_exX ⟨1, 3⟩ = _)
+      · cases hc
+  · intro c hc
+    rcases List.mem_cons.mp hc with rfl | hc
+    · exact ⟨rfl, trivial⟩
+    · rcases List.mem_cons.mp hc with rfl | hc
+      · exact ⟨rfl, trivial⟩
+      · cases hc
+
+/-- `Ob_MapDataSlab_PopIterate_heap` on a concrete non-root data slab: size 18 + 8, first key 0, one entry popped -/
+example (T : Nat) (eb : DEnvB 0) (rs : DRestruct 0) :
+    ∃ q, MapDataSlab_PopIterate (envD T eb rs) (md_data mdp_exA none) mdp_exSt = q ∧
+      q.1 = none ∧ q.2.1.header.size = 26 ∧ q.2.1.header.firstKey = 0 ∧ q.2.1.elements = mdp_exA.elems ∧
+      q.2.2.popped = [(mdp_exKA, default)] :=
+  ⟨_, Ob_MapDataSlab_PopIterate_heap T eb rs mdp_exA none mdp_exSt rfl, rfl, rfl, rfl, rfl, rfl⟩
+
+/-- `Ob_MapSlab_PopIterate_heap` on the depth-1 tree: both children popped LAST TO FIRST, both removed, the root kept -/
+example (T : Nat) (eb : DEnvB 0) (rs : DRestruct 0) :
+    ∃ s' : MHSt 0,
+      MapSlab_PopIterate (envD T eb rs) (MapMetaDataSlab_PopIterate (envD T eb rs) 1) (md_tree 1 mdp_exM mdp_exX)
+        mdp_exSt = some (none, .metaSlab ⟨⟨⟨1, 1⟩, 12, 0⟩, [], mdp_exX⟩, s') ∧
+      s'.popped = [(mdp_exKB, default), (mdp_exKA, default)] ∧
+      s'.ctx.eff = [.remove ⟨1, 3⟩, .remove ⟨1, 2⟩] ∧
+      s'.heap ⟨1, 2⟩ = none ∧ s'.heap ⟨1, 3⟩ = none ∧ s'.heap ⟨1, 1⟩ = mdp_exSt.heap ⟨1, 1⟩ := by
+  obtain ⟨h1, h2, h3, h4, h5⟩ := mdp_ex_hyps
+  obtain ⟨s', he, hc, hp, hg, hr, _⟩ := Ob_MapSlab_PopIterate_heap T eb rs 1 1 (Nat.le_refl _) mdp_exM mdp_exX mdp_exSt
+    h1 h2 h3 h4 h5
+  refine ⟨s', he, hp, ?_, hg ⟨1, 2⟩ (by decide) (by decide), hg ⟨1, 3⟩ (by decide) (by decide), hr⟩
+  rw [hc]; rfl
 
 end Atree.TransEq
